@@ -85,7 +85,32 @@ def _limits(as_gb):
     return f
 
 
-def run(cmd, cwd=None, timeout=None, as_gb=None, extra_env=None, stdin=None):
+def _rss_watchdog(pgid, limit_gb, stop, killed):
+    """Kill any verifier back-end process (cbmc / goto-instrument / z3) of our process group whose
+    resident set exceeds the limit: one probe took 65 GB before the kernel killed it."""
+    page = os.sysconf("SC_PAGE_SIZE")
+    while not stop.wait(2.0):
+        for pid in os.listdir("/proc"):
+            if not pid.isdigit():
+                continue
+            try:
+                with open("/proc/%s/stat" % pid) as fh:
+                    st = fh.read()
+                comm = st[st.index("(") + 1:st.rindex(")")]
+                if comm not in ("cbmc", "goto-instrument", "z3", "goto-cc", "kissat"):
+                    continue
+                fields = st[st.rindex(")") + 2:].split()
+                if int(fields[2]) != pgid:      # pgrp
+                    continue
+                rss = int(fields[21]) * page
+                if rss > limit_gb * (1 << 30):
+                    os.kill(int(pid), signal.SIGKILL)
+                    killed.append((comm, int(pid), rss >> 20))
+            except (OSError, ValueError, IndexError):
+                continue
+
+
+def run(cmd, cwd=None, timeout=None, as_gb=None, extra_env=None, stdin=None, rss_kill_gb=None):
     """Run a command under a wall-clock timeout and an address-space limit, killing the whole
     process group on timeout.  Returns (returncode or None on timeout, stdout+stderr, seconds)."""
     e = env()
@@ -95,6 +120,12 @@ def run(cmd, cwd=None, timeout=None, as_gb=None, extra_env=None, stdin=None):
     p = subprocess.Popen(cmd, cwd=cwd, env=e, stdout=subprocess.PIPE, stderr=subprocess.STDOUT,
                          stdin=subprocess.DEVNULL if stdin is None else subprocess.PIPE,
                          preexec_fn=_limits(as_gb), text=True, errors="replace")
+    stop, killed, th = None, [], None
+    if rss_kill_gb:
+        import threading
+        stop = threading.Event()
+        th = threading.Thread(target=_rss_watchdog, args=(p.pid, rss_kill_gb, stop, killed), daemon=True)
+        th.start()
     try:
         out, _ = p.communicate(input=stdin, timeout=timeout)
         rc = p.returncode
@@ -105,6 +136,10 @@ def run(cmd, cwd=None, timeout=None, as_gb=None, extra_env=None, stdin=None):
             pass
         out, _ = p.communicate()
         rc = None
+    if stop:
+        stop.set()
+    if killed:
+        out = (out or "") + "\n[verif] killed for exceeding %s GB RSS: %s\n" % (rss_kill_gb, killed)
     return rc, out, time.time() - t0
 
 
